@@ -309,3 +309,19 @@ Proof.
   unfold lenN. rewrite Nat2N.id. rewrite dec_samples_enc by exact Hs.
   rewrite Nat.sub_diag. cbn [repeat]. rewrite app_nil_r. reflexivity.
 Qed.
+
+(* a raw packet header record: the decoded header is the captured bytes, whatever padding follows them on the wire *)
+Lemma header_record_roundtrip proto flen stripped captured :
+  lenN captured < 4294967000 -> proto < 4294967296 -> flen < 4294967296 -> stripped < 4294967296 ->
+  let r := mk_header proto flen stripped captured in
+  dec_flow_record 1 (rLen r) (enc_rec_body r) = Ok r /\ rBlobs r = [captured].
+Proof.
+  intros H1 H2 H3 H4 r. split; [|reflexivity].
+  apply (dec_flow_record_enc r). unfold r, mk_header, EncSFlow.mk, fix_rec, wf_flow_rec, len_ok.
+  cbn [rKind rVals rBlobs rLists rFmt rLen]. rewrite N.eqb_refl.
+  unfold all32, u32. cbn [forallb].
+  repeat (apply andb_true_intro; split); try reflexivity; try (apply N.ltb_lt; assumption).
+  all: try apply N.eqb_refl.
+  all: unfold enc_rec_body; cbn [rKind rVals rBlobs]; unfold lenN in *; rewrite ?app_length, ?e4s_len, ?repeat_length; cbn [length nth b0];
+    unfold pad4; apply N.ltb_lt; lia.
+Qed.
